@@ -306,8 +306,11 @@ def main(argv=None):
         "violations": unlisted,
         "known_findings_reported": sorted(s for s in seen_sigs if any(f["signature"] == s for f in known)),
     }
-    os.makedirs(os.path.join(ROOT, "evidence"), exist_ok=True)
-    ep = os.path.join(ROOT, "evidence", pid + ".json")
+    # a run against a scratch tree (VERIF_REPO_SRC: evaluation of a seeded change) must not replace the
+    # evidence of /repo itself: its record goes to the ignored scratch/ directory
+    edir = os.path.join(ROOT, "scratch", "evidence") if os.environ.get("VERIF_REPO_SRC") else os.path.join(ROOT, "evidence")
+    os.makedirs(edir, exist_ok=True)
+    ep = os.path.join(edir, pid + ".json")
     with open(ep, "w") as f:
         json.dump(ev, f, indent=1, sort_keys=True)
     ok = validate_evidence(ep)
